@@ -34,6 +34,18 @@ def real_callable(qual):
     return obj
 
 
+def extracted_callable(c):
+    """the mechanically extracted text of the real function (c.extract applied to the current source), compiled in the namespace of the
+    real module: counterexamples of extracted contracts are replayed on exactly the code the VCs were generated from"""
+    rel = c.qual.split("#")[0].split(":")[0]
+    fdef, _, _ = front.find_def(c.qual)
+    ex = c.extract(copy.deepcopy(fdef))
+    mod = ast.parse(ast.unparse(ast.fix_missing_locations(ex)))  # fresh, consistent line numbers
+    ns = dict(vars(repo_import(rel)))
+    exec(compile(mod, "<extracted %s>" % c.qual, "exec"), ns)
+    return ns[ex.name]
+
+
 def real_enum(ename):
     e = T.ENUMS[ename]
     return getattr(repo_import(e.rel), ename)
@@ -90,6 +102,9 @@ def compile_ensure(src):
     return compile(tree, "<ensures>", "eval"), olds
 
 
+NS_RECORDS = [False]  # records without a registered class become attribute namespaces (replay of extracted functions)
+
+
 def to_real(v):
     """python value produced by val.to_python -> real object (enums, records stay dicts unless a builder is given)"""
     if isinstance(v, tuple) and len(v) == 3 and v[0] == "enum":
@@ -100,6 +115,9 @@ def to_real(v):
         return [to_real(x) for x in v]
     if isinstance(v, dict) and "__rec__" in v:
         rn = v["__rec__"]
+        if rn not in RECORD_CLASSES and NS_RECORDS[0]:
+            import types
+            return types.SimpleNamespace(**{k: to_real(x) for k, x in v.items() if k != "__rec__"})
         if rn in RECORD_CLASSES and RECORD_CLASSES[rn][0] == "builtin":
             import types
             return types.SimpleNamespace(**{k: to_real(x) for k, x in v.items() if k != "__rec__"})
@@ -135,11 +153,13 @@ class NativeOutcome:
         return bool(self.pre_ok) and bool(self.failed)
 
 
-def check_native(c, argmap, env=None):
+def check_native(c, argmap, env=None, fn=None):
     """Call the real function on argmap (param name -> python value) and evaluate the contract natively."""
     out = NativeOutcome()
     env = dict(env or native_env())
     fdef, _, _ = front.find_def(c.qual)
+    if fn is not None and c.extract:
+        fdef = c.extract(copy.deepcopy(fdef))
     params = [a.arg for a in fdef.args.args]
     # build the real call arguments first (stubs, streams, real objects), then snapshot them as the pre-state
     try:
@@ -169,7 +189,7 @@ def check_native(c, argmap, env=None):
         for o in ol:
             vals.append(copy.deepcopy(eval(o, e0)))
         olds.append(vals)
-    fn = real_callable(c.qual)
+    fn = fn or real_callable(c.qual)
     try:
         if params and params[0] in ("self", "cls") and c.args.get(params[0]) is None:
             out.result = fn(*[callargs[p] for p in params[1:] if p in callargs])
